@@ -401,12 +401,13 @@ Section Walk.
     | _ => Err TypeError
     end.
 
-  (* NDNav.index: if index <index_refuse> base_location.item_count: raise IndexError  (None: no such statement);
+  (* NDNav.index: if index <index_refuse_low: OP constant> or index <index_refuse> base_location.item_count: raise IndexError
+     (None: no such test; an index of the model is a natural number: negative indices are Model/LayoutValue.v index_start_z);
      LocationMaker(unpacker, subschema).from_instance(self.instance, start=<index_start>)  -- a fresh maker: no anchors *)
   Definition nav_index (v : nav) (i : nat) : res nav :=
     match n_loc v with
     | LArr st _ isz cnt _ sch =>
-        if refused index_refuse i cnt then Err IndexError
+        if refused_low index_refuse_low i || refused index_refuse i cnt then Err IndexError
         else match from_instance sch (eval (env_index st isz cnt i) index_start) with
              | Ok (l, an) => Ok (mknav l an)
              | Err e => Err e
